@@ -5,7 +5,8 @@
 (* File names are sequences over character classes that contain every      *)
 (* character with a meaning in .gitattributes (space, tab, #, !, quote,     *)
 (* glob metacharacters, backslash) plus a plain letter, a dot and a        *)
-(* non-ASCII letter.  The state is what the user asked for: the set of     *)
+(* non-ASCII letter and a non-ASCII white-space character (U+3000, which   *)
+(* is no separator in .gitattributes).  The state is what the user asked for: the set of     *)
 (* literal names tracked with --filename and the set of glob patterns      *)
 (* tracked without it.  IsLfs(n) says, from that alone, whether Git's      *)
 (* attribute lookup must report filter=lfs for the path n:                  *)
@@ -34,7 +35,7 @@ Match(p, n) ==
   IF p = <<>> THEN n = <<>>
   ELSE IF Head(p) = "star" THEN Match(Tail(p), n) \/ (n # <<>> /\ Match(p, Tail(n)))
   ELSE IF n = <<>> THEN FALSE
-  ELSE IF Head(p) = "qmark" THEN Head(n) # "nonascii" /\ Match(Tail(p), Tail(n))   \* Git matches bytes: ? is one byte
+  ELSE IF Head(p) = "qmark" THEN Head(n) \notin {"nonascii", "uspace"} /\ Match(Tail(p), Tail(n))   \* Git matches bytes: ? is one byte
   ELSE Head(p) = Head(n) /\ Match(Tail(p), Tail(n))
 
 IsLfs(n, F, P) == n \in F \/ \E p \in P : Match(p, n)
